@@ -16,6 +16,7 @@ behavioural equivalence of the renumbered program (see NOT_COVERED).
 from .common import *
 from pcbasic.basic import program as program_mod, interpreter as interp_mod
 from pcbasic.basic.base import tokens as tk
+from pcbasic.basic.base import codestream
 
 PROPERTY = 'C14'
 
@@ -172,12 +173,78 @@ def t_interpreter_renum(E, on_error, gosubs):
     E.prove(it.for_stack == [], 'loop stacks reset')
 
 
+_REF_LINES = [
+    (b'10 GOTO 100', (100,)), (b'10 GOSUB 100:RETURN 200', (100, 200)), (b'10 IF A THEN 100 ELSE 200', (100, 200)),
+    (b'10 ON X GOTO 100,200,300', (100, 200, 300)), (b'10 ON X GOSUB 100, 200', (100, 200)), (b'10 RESTORE 100', (100,)),
+    (b'10 RUN 100', (100,)), (b'10 RESUME 100', (100,)), (b'10 ON ERROR GOTO 100', (100,)), (b'10 ON KEY(15) GOSUB 100', (100,)),
+    (b'10 ON TIMER(5) GOSUB 100', (100,)), (b'10 IF ERL=100 THEN 200', (100, 200)), (b'10 IF ERL<>100 THEN 200', (100, 200)),
+    (b'10 IF ERL<100 THEN 200', (100, 200)), (b'10 IF ERL>100 THEN 200', (100, 200)), (b'10 IF ERL<=100 THEN 200', (100, 200)),
+    (b'10 IF ERL>=100 THEN 200', (100, 200)), (b'10 IF ERL = 100 GOTO 200', (100, 200)), (b'10 LIST 100-200', (100, 200)),
+    (b'10 DELETE 100-200', (100, 200)), (b'10 EDIT 100', (100,)),
+    # numbers that are not references
+    (b'10 A=100', ()), (b'10 PRINT 100', ()), (b'10 IF A<100 THEN PRINT 5', ()), (b'10 FOR I=100 TO 200', ()),
+    (b'10 IF A=100 THEN B=200', ()), (b'10 X=ERR+100', ()),
+]
+
+
+def t_all_handlers(E, num_fn_keys, tandy):
+    """Interpreter.renum_ remaps the traps in BasicEvents.all: after reset() every handler that can hold a
+    trap line - TIMER, every KEY slot (also the user-definable ones, which get their scancode later), PLAY,
+    COM1/2, PEN, STRIG 0..3 - is in it, once."""
+    from pcbasic.basic import basicevents
+    class _Files(object):
+        _pyvc_trusted = True
+        def get_device(self, name):
+            return None
+    ev = object.__new__(basicevents.BasicEvents)
+    ev._sound = ev._clock = None
+    ev._files = _Files()
+    ev._num_fn_keys = num_fn_keys
+    ev._tandy_fn_keys = tandy
+    r = E.call(ev.reset)
+    E.prove(not r.raised, 'reset never raises')
+    if r.raised:
+        return
+    ids = [id(h) for h in ev.all]
+    E.prove(len(set(ids)) == len(ids), 'no handler twice')
+    want = [ev.timer, ev.play, ev.pen] + list(ev.key) + list(ev.com) + list(ev.strig)
+    E.prove(all(id(h) in ids for h in want) and len(ids) == len(want), 'every handler that can hold a trap line is in BasicEvents.all')
+    E.prove(len(ev.key) >= 20, 'KEY slots 1..20 exist')
+
+
+def t_reference_tokens(E, text, refs):
+    """Tokeniser.tokenise_line marks exactly the line-number references of a line with the line-number
+    token (0x0e + 16-bit number) - these are what Program.renum rewrites - and no other number."""
+    from pcbasic.basic.converter import tokeniser as tokeniser_mod
+    vals = values_env()
+    tok = tokeniser_mod.Tokeniser(vals, tk.TokenKeywordDict('advanced'))
+    r = E.call(tok.tokenise_line, text)
+    E.prove(not r.raised, 'the line is tokenised')
+    if r.raised:
+        return
+    code = bytes(r.value.getvalue())
+    found = []
+    i = 4     # after NUL, line offset placeholder (2 bytes) ... the line number itself is stored plainly
+    ins = codestream.TokenisedStream()
+    ins.write(code + b'\0')
+    ins.seek(5)
+    while True:
+        c = ins.skip_to_read(tk.LINE_NUMBER + tk.END_LINE)
+        if c not in tk.LINE_NUMBER:
+            break
+        found.append(int.from_bytes(ins.read(2), 'little'))
+    E.prove(found == list(refs), 'the numbers stored as line-number references are exactly %r (found %r)' % (list(refs), found))
+
+
 TASKS = [
     Task('Program.renum (numbering)', t_program_renum, covers=('rejected', 'accepted'),
          cases=[{'shape': s, 'defaults': d} for s in _SHAPES for d in (False, True)]),
     Task('Interpreter.renum_ (traps follow their lines)', t_interpreter_renum,
          cases=[{'on_error': e, 'gosubs': g} for e in (0, None, 50, 100, 110, 60000)
                 for g in ((), (100,), (50, None, 110), (0, 999))]),
+    Task('BasicEvents.reset (all handlers are listed for RENUM)', t_all_handlers,
+         cases=[{'num_fn_keys': n, 'tandy': t} for n, t in ((10, False), (12, False), (12, True))]),
+    Task('Tokeniser.tokenise_line (line-number references)', t_reference_tokens, cases=[{'text': t, 'refs': r} for t, r in _REF_LINES]),
 ]
 
 ASSUMPTIONS = [
